@@ -215,6 +215,8 @@ def replay_known(ctx):
 
 def run(ctx):
     ctx.broken += common.proof_stage(ctx, THEOREMS)
+    # the concrete Lean parser model transcribes the plugins (speedup included): full-tree correspondence on their configurations
+    common.plugin_model_tie(ctx, 200 if ctx.quick() else 2500, ["all", "all-speedup", "only-speedup", "preset"])
     replay_known(ctx)
     n_rx, n_m, rx_broken, unsup = rxconf.run(ctx, per_pattern=15 if ctx.quick() else 150)
     ctx.broken += rx_broken
